@@ -24,7 +24,9 @@ RULE = ('grid: fixed diagrams (pk kinds int/auto/str/composite, required/optiona
         'lazy collection) x status presets (loaded, stub, partially loaded, lazy loaded, collection loaded / partially '
         'loaded, query result, created, created into a loaded collection, created+flushed, modified, modified+flushed, committed-then-modified, deleted, '
         'deleted+flushed, fully loaded) x session end (commit, rollback(), exception, commit()+exception) x strict x '
-        '(with-block, decorator), and for each such scenario every operation the diagram admits on every leftover '
+        'session kind (with-block, decorated function, @db_session generator: exhausted with each of the four ends, or '
+        'left suspended and closed with .close(), broken out of a for loop and dropped, ended by a thrown Exception, '
+        'GeneratorExit or KeyboardInterrupt), and for each such scenario every operation the diagram admits on every leftover '
         'object, outside a session and inside a fresh one, all applied to the same leftovers in a seed-dependent order '
         '(complete); random: hypothesis-generated diagrams, rows, in-session scripts and operation sequences of length '
         '1..12. A case is one (scenario, operation) evaluation; non-trivial = anything but a plain read of an object '
@@ -37,10 +39,30 @@ ASSUMPTIONS = ['SQLite 3 live through pony.orm.dbproviders.sqlite; the database 
                '(the statement leaves it open)']
 SHARDS = {'quick': 4, 'thorough': 16}
 MIN_EVALS = {'quick': 20000, 'thorough': 200000}
-CLASS_FLOORS = {'strict': 0.2, 'write-op': 0.1, 'in-new-session': 0.2, 'end:rollback': 0.1, 'end:exception': 0.1}
+CLASS_FLOORS = {'strict': 0.2, 'write-op': 0.1, 'in-new-session': 0.2, 'end:rollback': 0.1, 'end:exception': 0.05,
+                'form:generator': 0.1, 'gen:close': 0.01, 'gen:break': 0.01, 'gen:throw_exit': 0.01}
 
 ENDS = ['commit', 'rollback', 'exception', 'commit_exception']
 FORMS = ['with', 'decorator']
+# the third session kind: a @db_session GENERATOR function.  'exhaust' runs it to its end (the script's own end applies:
+# StopIteration commits, rollback(), an exception raised in the body); the others leave it suspended at its last yield
+# (everything committed, as Pony demands) and end it from outside
+GEN_ENDS = ['exhaust', 'close', 'break', 'throw_exc', 'throw_exit', 'throw_kbd']
+
+
+def session_variants():
+    """(form, gen, end) combinations"""
+    out = []
+    for form in FORMS:
+        for end in ENDS:
+            out.append((form, None, end))
+    for gen in GEN_ENDS:
+        if gen == 'exhaust':
+            for end in ENDS:
+                out.append(('generator', gen, end))
+        else:
+            out.append(('generator', gen, 'rollback'))
+    return out
 
 
 # ------------------------------------------------------------------------------------------------
@@ -303,6 +325,8 @@ def op_kind(op):
 def op_classes(op, case, status):
     k = op_kind(op)
     cl = ['op:' + k, 'end:' + case['end'], 'form:' + case.get('form', 'with')]
+    if case.get('gen'):
+        cl.append('gen:' + case['gen'])
     if status:
         cl.append('status:' + status)
     if case['strict']:
@@ -370,7 +394,7 @@ def run_case(env, case, on_op=None, on_fail=None):
 def describe(case):
     return ('diagram=%s prep=%s end=%s form=%s strict=%s' %
             (json.dumps(case['diagram'], sort_keys=True), json.dumps(case['prep']), case['end'],
-             case.get('form', 'with'), case['strict']))
+             case.get('form', 'with') + ('/' + case['gen'] if case.get('gen') else ''), case['strict']))
 
 
 def full_message(case, msg):
@@ -462,19 +486,20 @@ def grid_scenarios(tier):
         d = M.norm_diagram(d)
         data = grid_data(d)
         for status, prep in presets(d):
-            for end in ENDS:
+            for form, gen, end in session_variants():
                 for strict in (False, True):
-                    for form in FORMS:
-                        if tier == 'quick' and form == 'decorator' and (di > 0 or end == 'commit_exception'):
-                            continue        # quick tier: the decorator form only with the first diagram
-                        out.append((status, {'diagram': d, 'data': data, 'prep': prep, 'end': end, 'form': form,
-                                             'strict': strict}))
+                    if tier == 'quick' and form != 'with' and (di > 0 or (form == 'decorator' and end == 'commit_exception')):
+                        continue        # quick tier: decorator and generator forms only with the first diagram
+                    case = {'diagram': d, 'data': data, 'prep': prep, 'end': end, 'form': form, 'strict': strict}
+                    if gen:
+                        case['gen'] = gen
+                    out.append((status, case))
     return out
 
 
 def evaluate(ctx, env, case, status, shrink_ops):
     """run a case, account for every operation, report violations (open known findings are counted and skipped)"""
-    sk = chash([case['diagram'], case['data'], case['prep'], case['end'], case.get('form'), case['strict']])
+    sk = chash([case['diagram'], case['data'], case['prep'], case['end'], case.get('form'), case.get('gen'), case['strict']])
 
     def on_op(i, op, out, msg):
         sample = None
@@ -537,7 +562,7 @@ def run_grid(ctx, pool):
         ctx.check_time()
         env = pool.get(base['diagram'], base['data'])
         model = M.Model(base['diagram'], base['data'])
-        for act in base['prep']:
+        for act in M.effective_script(base)[0]:
             if not model.apply(act):
                 raise M.HarnessError('grid script step %r invalid (%s)' % (act, status))
         ops = order_ops(all_ops(model, base['diagram']), ctx.seed, k)
@@ -768,9 +793,13 @@ def case_strategy(tier):
                     h, a = c
                     try_add([kind, M.jk(h), a['name'], M.jk(pick(keys_of(a['type'])))])
         end = draw(st.sampled_from(ENDS))
-        form = draw(st.sampled_from(FORMS))
+        form = draw(st.sampled_from(FORMS + ['generator']))
         strict = draw(st.booleans())
         case = {'diagram': d, 'data': data, 'prep': prep, 'end': end, 'form': form, 'strict': strict}
+        if form == 'generator':
+            case['gen'] = draw(st.sampled_from(GEN_ENDS))
+            if case['gen'] != 'exhaust':
+                case['end'] = 'rollback'
         pool_ops = all_ops(model, d)
         if not pool_ops:
             ops = []
@@ -929,8 +958,10 @@ def _to_dict_unsaved_member(case, message):
     opts = op[2] or {}
     if not opts.get('with_collections') or opts.get('related_objects'):
         return False
-    unsaved = any(a[0] == 'create' and M.is_symbolic(a[2]) for a in case.get('prep', []))
-    return unsaved and case.get('end') in ('rollback', 'exception')
+    prep, end = M.effective_script(case)
+    last_commit = max([i for i, a in enumerate(prep) if a[0] == 'commit'] + [-1])
+    unsaved = any(a[0] == 'create' and M.is_symbolic(a[2]) for a in prep[last_commit + 1:])
+    return unsaved and end in ('rollback', 'exception')
 
 
 EXCLUSIONS = {'to_dict_unsaved_member': _to_dict_unsaved_member,
@@ -940,7 +971,8 @@ EXCLUSIONS = {'to_dict_unsaved_member': _to_dict_unsaved_member,
 
 MANIFEST = {
     'text': 'Complete enumeration, per fixed diagram, of object status presets x session end (commit, rollback(), exception, '
-            'commit()+exception) x strict x with-block/decorator, with every admissible operation applied to every leftover '
+            'commit()+exception) x strict x session kind (with-block, decorated function, @db_session generator exhausted / closed / '
+            'dropped / ended by a thrown Exception, GeneratorExit or KeyboardInterrupt), with every admissible operation applied to every leftover '
             'object outside a session and inside a fresh one (on the same leftovers, in a seed-dependent order), plus '
             'hypothesis-generated diagrams, rows, in-session scripts and operation sequences. Oracle: expected values come from '
             'the database read with plain sqlite3 and from the values the script assigned; loaded values readable iff not '
